@@ -55,12 +55,21 @@ class Check:
         self.floors.append((name, count, floor))
         self.ob("FLOOR", f"floor|{name}", count >= floor,
                 f"rule instance count for '{name}' is {count}, floor {floor}",
-                detail=None if count >= floor else
+                detail={"count": count, "floor": floor} if count >= floor else
                 "fewer instances than confirmed when the rule was frozen: an anchor moved or the "
                 "construct is no longer recognised; the property is undecided (fail closed)",
                 trivial=True)
 
     # ---- finishing
+    @staticmethod
+    def evidence_dir():
+        """evidence/ for runs against /repo itself; self-test runs (VERIF_REPO pointing at a scratch copy, or the name probe)
+        write under .cache/ so that they can never overwrite the evidence of the real tree"""
+        repo = os.path.abspath(os.environ.get("VERIF_REPO", "/repo"))
+        if repo != "/repo" or os.environ.get("VERIF_RENAME_SUFFIX"):
+            return os.path.join(VERIF, ".cache", "scratch-evidence", os.environ.get("VERIF_TGT_SLOT", "x"))
+        return os.path.join(VERIF, "evidence")
+
     def finish(self):
         kf = load_known()
         known = {(f["property"], f["key"]): f for f in kf.get("findings", [])}
@@ -73,7 +82,8 @@ class Check:
                 knownhits.append((o, known[k]))
             else:
                 viol.append(o)
-        rdir = os.path.join(VERIF, "evidence", "replay")
+        EV = self.evidence_dir()
+        rdir = os.path.join(EV, "replay")
         os.makedirs(rdir, exist_ok=True)
         for fn in os.listdir(rdir):
             if fn.startswith(self.pid + "-"):
@@ -85,7 +95,7 @@ class Check:
             print(f'KNOWN-FINDING: property={self.pid} {f["what"]} [{o["rule"]} {o["key"]}]')
         seen_keys = set()
         for i, o in enumerate(viol):
-            rp = os.path.join(VERIF, "evidence", "replay", f"{self.pid}-{i}.json")
+            rp = os.path.join(EV, "replay", f"{self.pid}-{i}.json")
             with open(rp, "w") as f:
                 json.dump({"property": self.pid, **o, "rule_text": self.rules.get(o["rule"])}, f, indent=1, default=str)
             print(f"VIOLATION property={self.pid} replay={rp}")
@@ -142,7 +152,7 @@ class Check:
         if self.level == "proof":
             ev["coverage"]["checker_cmd"] = f"./check {self.pid} --tier {self.tier}"
             ev["coverage"]["trusted_base"] = self.extra.get("trusted_base", [])
-        with open(os.path.join(VERIF, "evidence", f"{self.pid}.json"), "w") as f:
+        with open(os.path.join(EV, f"{self.pid}.json"), "w") as f:
             json.dump(ev, f, indent=1, default=str)
         n_ok = sum(1 for o in self.obls if o["ok"])
         print(f"{self.pid}: {len(self.obls)} obligations, {n_ok} discharged, {len(knownhits)} known findings, "
